@@ -367,7 +367,7 @@ def case_st(draw, big=False):
         "crlf": draw(st.sampled_from([False, False, False, True])),
     }
     # line-level mutation
-    mut = draw(st.sampled_from([None, None, "drop", "dup", "truncate", "garbage", "badtype", "blank", "noprio"]))
+    mut = draw(st.sampled_from([None, None, "drop", "dup", "truncate", "garbage", "badtype", "blank", "noprio", "badtype2"]))
     if mut and lines:
         i = draw(st.integers(0, len(lines) - 1))
         if mut == "drop":
@@ -382,6 +382,9 @@ def case_st(draw, big=False):
             parts = lines[i].split(" ")
             lines[i] = lines[i].replace(":", "", 1) if ":" in lines[i] else lines[i]
             del parts
+        elif mut == "badtype2":
+            # two consecutive lines with the same colon-less type (e.g. 'function' written for 'py:function')
+            lines[i:i + 1] = [f"helperA{i} function 1 a.html#$ -", f"helperB{i} function 1 b.html#$ -"]
         elif mut == "blank":
             lines.insert(i, "")
         elif mut == "noprio":
